@@ -1,6 +1,6 @@
 (* C20 — Bounded state: caps respected, statistics consistent (no leaks at quiescence is checked on
    workloads, see C06/C20 checks). Statements only. *)
-From MLV Require Import gen.Params model.Bytes model.Cache model.Check20 proofs.CacheProofs.
+From MLV Require Import gen.Params model.Bytes model.Lru model.Server model.Cache model.Check20 proofs.CacheProofs proofs.ServerProofs proofs.CapsProofs.
 Open Scope N_scope.
 
 (* for every history of finished lookups (and cache hits), each statistic of each routing table equals
@@ -31,6 +31,36 @@ Proof. exact cache_capped. Qed.
 Theorem C20_one_entry_per_target : forall ops, NoDup (map e_target (c_entries (fold_left cstep ops cstate0))).
 Proof. intros ops. exact (ci_nodup _ (cache_inv_reachable ops)). Qed.
 
+(* the stores of a storing node: under every history of requests (any kinds, any tokens, any payloads, filtered or
+   not, whatever the clock does) the info-hash tables, every per-info-hash peer table, the immutable and the
+   mutable store stay within their capacities *)
+Theorem C20_stores_never_exceed_capacity : forall verify rt srt hs st,
+  caps_ok (fst st) -> caps_ok (fst (fold_left (hstep verify rt srt) hs st)).
+Proof. exact history_caps. Qed.
+
+Theorem C20_new_server_within_capacity : forall tape now a b c d,
+  (0 < a)%nat -> (0 < b)%nat -> (0 < c)%nat -> (0 < d)%nat -> caps_ok (fst (server_new tape now a b c d)).
+Proof. exact server_new_caps. Qed.
+
+(* ... evicting least-recently-used entries: a write refreshes its key in place or puts it in front of
+   everything else, and when the store is full and the key is new exactly the last entry - the least recently
+   used one - goes; a read hit makes the entry the most recently used one *)
+Theorem C20_write_evicts_least_recently_used : forall (V : Type) k (v : V) l,
+  l_ents (lru_put k v l) =
+    match assoc_find k (l_ents l) with
+    | Some _ => (k, v) :: assoc_remove k (l_ents l)
+    | None => if (length (l_ents l) <? l_cap l)%nat then (k, v) :: l_ents l else (k, v) :: removelast (l_ents l)
+    end.
+Proof. intros V. exact (@lru_put_shape V). Qed.
+
+Theorem C20_read_promotes : forall (V : Type) k (l : lru V) v, lru_peek k l = Some v ->
+  l_ents (snd (lru_get k l)) = (k, v) :: assoc_remove k (l_ents l).
+Proof. intros V. exact (@lru_get_shape V). Qed.
+
+Print Assumptions C20_stores_never_exceed_capacity.
+Print Assumptions C20_new_server_within_capacity.
+Print Assumptions C20_write_evicts_least_recently_used.
+Print Assumptions C20_read_promotes.
 Print Assumptions C20_stats_mirror_cache.
 Print Assumptions C20_counts_never_underflow.
 Print Assumptions C20_cache_capped.
